@@ -8,7 +8,6 @@ import (
 	"encoding/xml"
 	"fmt"
 	"math/rand"
-	"sort"
 	"strings"
 	"sync"
 	"time"
@@ -18,15 +17,19 @@ import (
 )
 
 type c10Op struct {
-	Op   string `json:"op"`             // send raw ack
-	Kind int    `json:"kind,omitempty"` // send: 0 stanza 1 <r/> 2 <a/>
-	Body string `json:"body,omitempty"` // stanza body / raw string
+	Op   string `json:"op"`             // send raw ack peer_r
+	Kind int    `json:"kind,omitempty"` // send: 0 stanza 1 stanza.SMRequest 2 stanza.SMAnswer 3 *stanza.SMRequest 4 *stanza.SMAnswer
+	Body string `json:"body,omitempty"` // stanza body / raw string (a raw <r/> or <a/> of stream management is recognised by c10RawKind)
 	H    int    `json:"h,omitempty"`
+	Big  bool   `json:"big,omitempty"`  // ack: h = 2^63 + H (beyond the signed range)
+	Fail bool   `json:"fail,omitempty"` // send/raw: the transport refuses this write (Send returns the error)
 }
 type c10In struct {
 	Ops        []c10Op `json:"ops"`
 	Concurrent int     `json:"concurrent,omitempty"` // >0: that many goroutines push first (stress), ops follow
 	Stall      []int   `json:"stall,omitempty"`      // acknowledgements h1,h2,... arriving (each on its own goroutine, as Client.recv routes them) while the retransmission triggered by <a h='0'/> is stalled in a blocking write; Ops are the sends made before
+	Connect    bool    `json:"connect,omitempty"`    // the session is negotiated by the real Client.Connect (scripted server on the stub): its initial <presence/>, written after <enabled/>, is the first stanza of the session
+	Race       int     `json:"race,omitempty"`       // 1,2: two senders A, B; A's write is stalled by the transport, B is started meanwhile, then A goes on (1: A=SendRaw B=Send, 2: A=Send B=SendRaw); ops follow
 }
 
 type c10 struct{}
@@ -38,13 +41,46 @@ func (c10) RunFn() string { return "run_C10" }
 func (c10) Workers() int  { return 8 }
 func (c10) Journal() bool { return true }
 func (c10) Rule() string {
-	return "random histories (0-40 ops) over Send(stanza), Send(<r/>), Send(<a/>), the server's <r/> answered by the real receive loop, SendRaw(stanza string) and server <a h/> with h below, equal to, above the number sent, stale, repeated and negative-free (h is unsigned on the wire) through the real Client.Send/SendRaw and Router.route(SMAnswer) on a recording transport; after every op the queue (ids, payloads) and the bytes written are compared; plus concurrent senders (8 goroutines) followed by acknowledgements, and acknowledgements piling up on their own goroutines behind a retransmission stalled in a blocking write (only what is held afterwards is compared); distinct = op-kind/h-class sequence; non-trivial = at least one ack with stanzas held"
+	return "random histories (0-40 ops) over Send(stanza), Send(<r/>), Send(<a/>) by value and by pointer, the server's <r/> answered by the real receive loop, SendRaw(stanza string), SendRaw of a raw stream-management <r/> or <a/> (several spellings), sends whose write the transport refuses, and server <a h/> with h below, equal to, above the number sent, stale, repeated and beyond the signed range (h is unsigned on the wire) through the real Client.Send/SendRaw and Router.route(SMAnswer) on a recording transport, a sixth of them on a session negotiated by the real Client.Connect (its initial presence is the first stanza of the session); after every op the queue (ids, payloads) and the bytes written are compared; plus concurrent senders (8 goroutines) and two senders of which the first is stalled by the transport between numbering and writing (the sequence numbers must follow the order on the wire), followed by acknowledgements, and acknowledgements piling up on their own goroutines behind a retransmission stalled in a blocking write (only what is held afterwards is compared); distinct = op-kind/h-class sequence; non-trivial = at least one ack with stanzas held"
 }
 
 func (c10) Decode(raw json.RawMessage) (interface{}, error) {
 	var in c10In
 	err := json.Unmarshal(raw, &in)
 	return in, err
+}
+
+// spellings of a raw stream-management request / answer handed to SendRaw
+var c10RawSM = []string{
+	"<r xmlns='urn:xmpp:sm:3'/>",
+	`<r xmlns="urn:xmpp:sm:3"></r>`,
+	" <sm:r xmlns:sm='urn:xmpp:sm:3'/>",
+	"<a xmlns='urn:xmpp:sm:3' h='0'/>",
+	`<a h="7" xmlns="urn:xmpp:sm:3"></a>`,
+}
+
+// c10Witnesses: the minimal histories of the defects found by review (replays/C10/corpus carries the same).
+func c10Witnesses() []interface{} {
+	m := func(b string) c10Op { return c10Op{Op: "send", Body: b} }
+	return []interface{}{
+		// an acknowledgement request / answer passed to Send as a pointer
+		c10In{Ops: []c10Op{m("m1"), {Op: "send", Kind: 3}, {Op: "ack", H: 1}, m("m2"), {Op: "ack", H: 2}}},
+		c10In{Ops: []c10Op{m("m1"), {Op: "send", Kind: 4, H: 0}, {Op: "ack", H: 1}}},
+		// a raw <r/> / <a/> through SendRaw
+		c10In{Ops: []c10Op{m("m1"), {Op: "raw", Body: c10RawSM[0]}, {Op: "ack", H: 1}, m("m2"), {Op: "ack", H: 2}}},
+		c10In{Ops: []c10Op{m("m1"), {Op: "raw", Body: c10RawSM[3]}, {Op: "ack", H: 1}}},
+		// the initial presence of Connect is stanza number 1 of the session
+		c10In{Connect: true, Ops: []c10Op{m("m1"), m("m2"), {Op: "send", Kind: 1}, {Op: "ack", H: 1}}},
+		// two senders, the first stalled between taking its number and writing
+		c10In{Race: 1, Ops: []c10Op{{Op: "ack", H: 1}}},
+		c10In{Race: 2, Ops: []c10Op{{Op: "ack", H: 1}, {Op: "ack", H: 1}}},
+		// a refused send is not a stanza sent on the session
+		c10In{Ops: []c10Op{m("m1"), {Op: "send", Body: "m2", Fail: true}, m("m3"), {Op: "ack", H: 2}}},
+		c10In{Ops: []c10Op{{Op: "raw", Body: "<message id='x'/>", Fail: true}, m("m1"), {Op: "ack", H: 1}}},
+		// h beyond the signed range acknowledges everything
+		c10In{Ops: []c10Op{m("m1"), m("m2"), {Op: "ack", Big: true}}},
+		c10In{Ops: []c10Op{m("m1"), m("m2"), {Op: "ack", H: 1}, {Op: "ack", Big: true, H: 5}}},
+	}
 }
 
 func (c10) Gen(r *rand.Rand, tier string) []interface{} {
@@ -61,30 +97,43 @@ func (c10) Gen(r *rand.Rand, tier string) []interface{} {
 		c10In{Ops: []c10Op{{Op: "ack", H: 1}}},
 		c10In{Ops: []c10Op{{Op: "peer_r"}, {Op: "send", Body: "x"}, {Op: "ack", H: 1}, {Op: "peer_r"}, {Op: "raw", Body: "<message id='y'/>"}, {Op: "ack", H: 1}}},
 	)
+	out = append(out, c10Witnesses()...)
 	bodies := []string{"hi", "a <b> & c", "é漢😀", strings.Repeat("z", 200), "", "]]>"}
 	for i := 0; i < n; i++ {
 		l := r.Intn(41)
+		in := c10In{Connect: r.Intn(6) == 0}
 		sent := 0
+		if in.Connect {
+			sent = 1
+		}
 		ops := make([]c10Op, 0, l)
-		ackBias := 1 + r.Intn(4)
 		for j := 0; j < l; j++ {
+			fail := r.Intn(14) == 0
 			switch c := r.Intn(10); {
 			case c < 4:
-				ops = append(ops, c10Op{Op: "send", Body: bodies[r.Intn(len(bodies))] + fmt.Sprint(j)})
-				sent++
+				ops = append(ops, c10Op{Op: "send", Body: bodies[r.Intn(len(bodies))] + fmt.Sprint(j), Fail: fail})
+				if !fail {
+					sent++
+				}
 			case c < 6:
-				ops = append(ops, c10Op{Op: "raw", Body: fmt.Sprintf("<message id='r%d'><body>%s</body></message>", j, "raw")})
-				sent++
+				if r.Intn(6) == 0 {
+					ops = append(ops, c10Op{Op: "raw", Body: c10RawSM[r.Intn(len(c10RawSM))], Fail: fail && r.Intn(2) == 0})
+					break
+				}
+				ops = append(ops, c10Op{Op: "raw", Body: fmt.Sprintf("<message id='r%d'><body>%s</body></message>", j, "raw"), Fail: fail})
+				if !fail {
+					sent++
+				}
 			case c < 7:
 				if r.Intn(2) == 0 {
 					ops = append(ops, c10Op{Op: "peer_r"})
 				} else {
-					ops = append(ops, c10Op{Op: "send", Kind: 1 + r.Intn(2), H: r.Intn(4)})
+					ops = append(ops, c10Op{Op: "send", Kind: 1 + r.Intn(4), H: r.Intn(4)})
 				}
 			default:
-				_ = ackBias
 				var h int
-				switch r.Intn(8) {
+				big := false
+				switch r.Intn(9) {
 				case 0:
 					h = 0
 				case 1:
@@ -93,13 +142,20 @@ func (c10) Gen(r *rand.Rand, tier string) []interface{} {
 					h = sent + 1 + r.Intn(3)
 				case 3:
 					h = 1 << 30
+				case 4:
+					if r.Intn(3) == 0 {
+						big, h = true, r.Intn(3)
+					} else {
+						h = r.Intn(sent + 2)
+					}
 				default:
 					h = r.Intn(sent + 2)
 				}
-				ops = append(ops, c10Op{Op: "ack", H: h})
+				ops = append(ops, c10Op{Op: "ack", H: h, Big: big})
 			}
 		}
-		out = append(out, c10In{Ops: ops})
+		in.Ops = ops
+		out = append(out, in)
 	}
 	// acknowledgements piling up behind a stalled retransmission
 	ns := 12
@@ -126,19 +182,67 @@ func (c10) Gen(r *rand.Rand, tier string) []interface{} {
 	for i := 0; i < nc; i++ {
 		out = append(out, c10In{Concurrent: 8, Ops: []c10Op{{Op: "ack", H: r.Intn(70)}, {Op: "ack", H: r.Intn(70)}}})
 	}
+	// two senders, the first stalled between numbering and writing
+	nr := 6
+	if tier == "thorough" {
+		nr = 60
+	}
+	for i := 0; i < nr; i++ {
+		in := c10In{Race: 1 + r.Intn(2)}
+		for k := r.Intn(3); k >= 0; k-- {
+			in.Ops = append(in.Ops, c10Op{Op: "ack", H: r.Intn(4)})
+		}
+		out = append(out, in)
+	}
 	return out
 }
 
-func c10Client() (*xmpp.Client, *stubTransport, *xmpp.Router) {
-	st := newStub([][]byte{[]byte(clientHeader)}, nil)
+// the server side of a negotiation with stream management, all of it readable at once (the client reads what it needs)
+const c10Negotiation = clientHeader +
+	"<stream:features><mechanisms xmlns='urn:ietf:params:xml:ns:xmpp-sasl'><mechanism>PLAIN</mechanism></mechanisms></stream:features>" +
+	"<success xmlns='urn:ietf:params:xml:ns:xmpp-sasl'/>" +
+	clientHeader +
+	"<stream:features><bind xmlns='urn:ietf:params:xml:ns:xmpp-bind'/><sm xmlns='urn:xmpp:sm:3'/></stream:features>" +
+	"<iq type='result' id='1'><bind xmlns='urn:ietf:params:xml:ns:xmpp-bind'><jid>u@localhost/r</jid></bind></iq>" +
+	"<enabled xmlns='urn:xmpp:sm:3' id='sm' resume='true'/>"
+
+// c10Client: a client on the recording stub with stream management active. connect=false: the session is installed
+// through the hooks and the real receive loop started; connect=true: the public Client.Connect negotiates it (and
+// starts the receive loop itself). skip = number of writes that belong to the negotiation (up to <enable/>).
+func c10Client(connect bool) (c *xmpp.Client, st *stubTransport, router *xmpp.Router, skip int, err error) {
+	script := clientHeader
+	if connect {
+		script = c10Negotiation
+	}
+	st = newStub([][]byte{[]byte(script)}, nil)
 	st.feed = make(chan []byte, 4)
-	router := xmpp.NewRouter()
-	cfg := &xmpp.Config{TransportConfiguration: xmpp.TransportConfiguration{Address: "localhost:1"}, Jid: "u@localhost", Credential: xmpp.Password("p"), StreamManagementEnable: true}
-	c, err := xmpp.NewClient(cfg, router, func(error) {})
+	router = xmpp.NewRouter()
+	cfg := &xmpp.Config{TransportConfiguration: xmpp.TransportConfiguration{Address: "localhost:1"}, Jid: "u@localhost", Credential: xmpp.Password("p"), StreamManagementEnable: true, Insecure: true, KeepaliveInterval: time.Hour}
+	cfg.VerifSetSMResume(true)
+	c, err = xmpp.NewClient(cfg, router, func(error) {})
 	if err != nil {
 		panic(err)
 	}
 	xmpp.VerifSetTransport(c, st)
+	if connect {
+		if err = c.Connect(); err != nil {
+			return
+		}
+		if c.Session == nil || c.Session.SMState.UnAckQueue == nil {
+			err = fmt.Errorf("stream management not negotiated")
+			return
+		}
+		ws := st.snapshotWrites()
+		for i, w := range ws {
+			if ns, e := parseCanon([]byte(w.Data)); e == nil && len(ns) == 1 && ns[0].Name.Space == nsSM && ns[0].Name.Local == "enable" {
+				skip = i + 1
+			}
+		}
+		if skip == 0 {
+			err = fmt.Errorf("no <enable/> among the writes of Connect")
+		}
+		return
+	}
 	xmpp.VerifSetSession(c, xmpp.SMState{Id: "sm", UnAckQueue: stanza.NewUnAckQueue()})
 	st.StartStream()
 	st.mu.Lock()
@@ -146,7 +250,7 @@ func c10Client() (*xmpp.Client, *stubTransport, *xmpp.Router) {
 	st.mu.Unlock()
 	// the real receive loop answers the server's <r/> (ops "peer_r")
 	go xmpp.VerifRecv(c, make(chan struct{}))
-	return c, st, router
+	return
 }
 
 func c10Packet(o c10Op) stanza.Packet {
@@ -155,28 +259,65 @@ func c10Packet(o c10Op) stanza.Packet {
 		return stanza.SMRequest{}
 	case 2:
 		return stanza.SMAnswer{H: uint(o.H)}
+	case 3:
+		return &stanza.SMRequest{}
+	case 4:
+		return &stanza.SMAnswer{H: uint(o.H)}
 	}
 	m := stanza.NewMessage(stanza.Attrs{To: "peer@localhost", Id: "m"})
 	m.Body = o.Body
 	return m
 }
 
+// c10SendKind: what a Send op hands over (0 stanza, 1 acknowledgement request, 2 acknowledgement answer), value or pointer alike.
+func c10SendKind(o c10Op) int {
+	switch o.Kind {
+	case 1, 3:
+		return 1
+	case 2, 4:
+		return 2
+	}
+	return 0
+}
+
+// c10RawKind: the harness's own reading of a raw string (canon.go): 1 = one {urn:xmpp:sm:3}r, 2 = one {urn:xmpp:sm:3}a, 0 = anything else (a stanza).
+func c10RawKind(body string) int {
+	if isSMRequest([]byte(body)) {
+		return 1
+	}
+	if _, ok := smAnswerH([]byte(body)); ok {
+		return 2
+	}
+	return 0
+}
+
+const c10Presence = "<presence/>"
+
+// the two stanzas of a race scenario: A's raw string and the body of B's message
+func c10RaceBodies(mode int) (a, b string) { return "<message id='ra'/>", "rb" }
+
 // c10Canon: written and held stanzas are compared as elements (canon.go), not as bytes: how the library spells a
 // stanza is not part of C10 (that every send writes exactly its serialisation is C08's clause).
 func c10Canon(s string) string { return canonOrRaw(s) }
 
-// observe: (writes since last op as witems, queue) ; concurrent pushes are observed
-// through the queue only (their order is the order in which they were pushed).
+// observe: (writes since last op as witems, queue). Writes the transport refused are not on the wire. Concurrent
+// pushes are observed as one step: the writes in the order the transport received them, the queue afterwards.
 func (c10) Run(inp interface{}) Sx {
 	in := inp.(c10In)
-	c, st, router := c10Client()
+	c, st, router, seen, err := c10Client(in.Connect)
+	if err != nil {
+		close(st.feed)
+		return L(SBytes("setup-failed"), SBytes(err.Error()))
+	}
 	q := c.Session.SMState.UnAckQueue
 	var steps []Sx
-	seen := 0
 	snapshot := func() Sx {
 		ws := st.snapshotWrites()
 		var wx []Sx
 		for _, w := range ws[seen:] {
+			if w.Failed {
+				continue
+			}
 			if isSMRequest([]byte(w.Data)) {
 				wx = append(wx, L(Z(1)))
 			} else {
@@ -191,6 +332,9 @@ func (c10) Run(inp interface{}) Sx {
 		}
 		q.RUnlock()
 		return L(LS(wx), LS(qx))
+	}
+	if in.Connect {
+		steps = append(steps, snapshot()) // what Connect wrote after <enable/>, and what is held
 	}
 	if in.Concurrent > 0 {
 		var wg sync.WaitGroup
@@ -209,36 +353,65 @@ func (c10) Run(inp interface{}) Sx {
 			}(g)
 		}
 		wg.Wait()
-		first := snapshot()
-		// the wire order of concurrent senders need not be the queue order: report the
-		// writes in queue order when they are a permutation of the held payloads
-		pos := map[string]int{}
-		for i, e := range first.L[1].L {
-			pos[string(bytesOf(e.L[1]))] = i
+		steps = append(steps, snapshot())
+	}
+	if in.Race > 0 {
+		bodyA, bodyB := c10RaceBodies(in.Race)
+		sendA := func() { c.SendRaw(bodyA) }
+		sendB := func() { c.Send(c10Packet(c10Op{Body: bodyB})) }
+		if in.Race == 2 {
+			sendA, sendB = func() { c.Send(c10Packet(c10Op{Body: bodyB})) }, func() { c.SendRaw(bodyA) }
 		}
-		ws := append([]Sx{}, first.L[0].L...)
-		perm := len(ws) == len(pos)
-		for _, w := range ws {
-			if len(w.L) != 2 {
-				perm = false
-			} else if _, ok := pos[string(bytesOf(w.L[1]))]; !ok {
-				perm = false
+		gate := make(chan struct{})
+		st.mu.Lock()
+		st.blockAt = map[int]chan struct{}{st.nwrites + 1: gate} // the next write stalls: it is A's
+		st.mu.Unlock()
+		doneA, doneB := make(chan struct{}), make(chan struct{})
+		go func() { defer close(doneA); sendA() }()
+		for k := 0; k < 40000; k++ { // until A is inside its write (it has its sequence number)
+			st.mu.Lock()
+			inside := len(st.blockAt) == 0
+			st.mu.Unlock()
+			if inside {
+				break
+			}
+			time.Sleep(50 * time.Microsecond)
+		}
+		go func() { defer close(doneB); sendB() }()
+		select { // B either completes while A is stalled, or has to wait for A
+		case <-doneB:
+			hist("race:second-sender-overtook")
+		case <-time.After(30 * time.Millisecond):
+			hist("race:second-sender-waited")
+		}
+		close(gate)
+		for _, d := range []chan struct{}{doneA, doneB} {
+			select {
+			case <-d:
+			case <-time.After(3 * time.Second):
+				close(st.feed)
+				return L(SBytes("senders-deadlocked"))
 			}
 		}
-		if perm {
-			sort.SliceStable(ws, func(a, b int) bool { return pos[string(bytesOf(ws[a].L[1]))] < pos[string(bytesOf(ws[b].L[1]))] })
-			first = L(LS(ws), first.L[1])
-		}
-		steps = append(steps, first)
+		steps = append(steps, snapshot())
 	}
 	for _, o := range in.Ops {
+		if o.Fail && (o.Op == "send" || o.Op == "raw") {
+			st.mu.Lock()
+			st.writeFailAt[st.nwrites+1] = true
+			st.mu.Unlock()
+		}
 		switch o.Op {
 		case "send":
 			c.Send(c10Packet(o))
 		case "raw":
 			c.SendRaw(o.Body)
 		case "ack":
-			xmpp.VerifRoute(router, c, stanza.SMAnswer{H: uint(o.H)})
+			h := uint(o.H)
+			if o.Big {
+				h += 1 << 63
+			}
+			xmpp.VerifRoute(router, c, stanza.SMAnswer{H: h})
 		case "peer_r":
 			// the server asks for an acknowledgement: Client.recv writes <a/> through Client.Send
 			before := len(st.snapshotWrites())
@@ -284,17 +457,23 @@ func (c10) Run(inp interface{}) Sx {
 }
 
 // Input: for concurrent cases the pushes are given to the model in the order the
-// implementation queued them (read back from the first observation), as raw sends.
+// implementation queued them (read back from that step's observation), as raw sends.
 func (p c10) Input(inp interface{}) Sx { return p.InputObs(inp, L()) }
 
 func (p c10) InputObs(inp interface{}, obs Sx) Sx {
 	in := inp.(c10In)
 	var ops []Sx
-	if in.Concurrent > 0 {
+	if in.Connect {
+		// the initial presence of Connect: an ordinary stanza sent on the session
+		ops = append(ops, L(Z(1), Z(0), SBytes(c10Canon(c10Presence))))
+	}
+	if in.Concurrent > 0 || in.Race > 0 {
 		var ds []Sx
-		if len(obs.L) > 0 && len(obs.L[0].L) == 2 {
-			for _, e := range obs.L[0].L[1].L {
-				ds = append(ds, e.L[1])
+		if at := len(ops); len(obs.L) > at && len(obs.L[at].L) == 2 {
+			for _, e := range obs.L[at].L[1].L {
+				if len(e.L) == 2 {
+					ds = append(ds, e.L[1])
+				}
 			}
 		}
 		ops = append(ops, L(Z(9), LS(ds)))
@@ -303,11 +482,23 @@ func (p c10) InputObs(inp interface{}, obs Sx) Sx {
 		switch o.Op {
 		case "send":
 			data, _ := xml.Marshal(c10Packet(o))
-			ops = append(ops, L(Z(0), Zi(o.Kind), SBytes(c10Canon(string(data)))))
+			if o.Fail {
+				ops = append(ops, L(Z(4), Zi(o.Kind), SBytes(c10Canon(string(data)))))
+			} else {
+				ops = append(ops, L(Z(0), Zi(o.Kind), SBytes(c10Canon(string(data)))))
+			}
 		case "raw":
-			ops = append(ops, L(Z(1), SBytes(c10Canon(o.Body))))
+			if o.Fail {
+				ops = append(ops, L(Z(4), Zi(c10RawKind(o.Body)), SBytes(c10Canon(o.Body))))
+			} else {
+				ops = append(ops, L(Z(1), Zi(c10RawKind(o.Body)), SBytes(c10Canon(o.Body))))
+			}
 		case "ack":
-			ops = append(ops, L(Z(2), Zi(o.H)))
+			if o.Big {
+				ops = append(ops, L(Z(3), Zi(o.H)))
+			} else {
+				ops = append(ops, L(Z(2), Zi(o.H)))
+			}
 		case "peer_r":
 			// no stanza is ever received in these histories: the answer reports h=0
 			ops = append(ops, L(Z(0), Z(2), SBytes(c10Canon(`<a xmlns="urn:xmpp:sm:3" h="0"></a>`))))
@@ -323,52 +514,112 @@ func (p c10) InputObs(inp interface{}, obs Sx) Sx {
 	return LS(ops)
 }
 
+// c10Simultaneous: the step of several senders at once. Every expected stanza is held exactly once, numbered from
+// base+1 in steps of one, and - the server counts the stanzas in the order in which they arrive - the order of the
+// sequence numbers is the order of the writes. Returns the payloads in that order.
+func c10Simultaneous(step Sx, want map[string]int, base int, what string) (sent []string, msg, sig string) {
+	if len(step.L) != 2 {
+		return nil, what + ": no observation", "shape"
+	}
+	ws, qx := step.L[0].L, step.L[1].L
+	total := 0
+	for _, v := range want {
+		total += v
+	}
+	if len(qx) != total {
+		return nil, fmt.Sprintf("%s: %d stanzas sent, %d held", what, total, len(qx)), "concurrent-lost"
+	}
+	for i, e := range qx {
+		if e.L[0].Z != int64(base+i+1) {
+			return nil, fmt.Sprintf("%s: entry %d has sequence number %d", what, i, e.L[0].Z), "concurrent-ids"
+		}
+		s := string(bytesOf(e.L[1]))
+		if _, ok := want[s]; !ok {
+			return nil, what + ": unknown entry held: " + s, "concurrent-unknown"
+		}
+		want[s]--
+		sent = append(sent, s)
+	}
+	for k, v := range want {
+		if v != 0 {
+			return nil, what + ": stanza " + k + " held " + fmt.Sprint(1-v) + " times", "concurrent-dup"
+		}
+	}
+	if len(ws) != len(sent) {
+		return nil, fmt.Sprintf("%s: %d stanzas sent, %d writes", what, len(sent), len(ws)), "concurrent-wire-count"
+	}
+	for i, w := range ws {
+		if len(w.L) != 2 || string(bytesOf(w.L[1])) != sent[i] {
+			return nil, fmt.Sprintf("%s: the stanza written at position %d of the stream is not the one holding sequence number %d: an acknowledgement of %d stanzas, which the server counts as they arrive, discards another stanza than the server has handled", what, i+1, base+i+1, i+1), "concurrent-wire-order"
+		}
+	}
+	return sent, "", ""
+}
+
 // Oracle: independent Go reading of the property on the observation.
 func (c10) Oracle(inp interface{}, obs Sx) (string, string) {
 	in := inp.(c10In)
 	steps := obs.L
+	if len(steps) > 0 && steps[0].K == "s" {
+		return "scenario did not run: " + obs.String(), "setup-" + string(bytesOf(steps[0]))
+	}
 	var sent []string // absolute
 	acked := 0
 	idx := 0
-	if in.Concurrent > 0 {
-		if len(steps) == 0 {
+	if in.Connect {
+		// Connect wrote the initial presence after stream management was enabled: stanza number 1 of the session
+		if len(steps) == 0 || len(steps[0].L) != 2 {
 			return "no observation", "shape"
 		}
-		// every concurrent push exactly once, ids 1..n strictly increasing
+		ws, qx := steps[0].L[0].L, steps[0].L[1].L
+		pres := c10Canon(c10Presence)
+		if len(ws) != 1 || len(ws[0].L) != 2 || string(bytesOf(ws[0].L[1])) != pres {
+			return "Connect: expected exactly the initial presence on the wire after <enable/>: " + steps[0].String(), "connect-wire"
+		}
+		sent = append(sent, pres)
+		if len(qx) != 1 {
+			return fmt.Sprintf("Connect: 1 stanza sent on the session (the initial presence, after stream management was enabled), 0 acknowledged, but %d held", len(qx)), "held-count-connect"
+		}
+		if string(bytesOf(qx[0].L[1])) != pres || qx[0].L[0].Z != 1 {
+			return "Connect: the held entry is not the initial presence under sequence number 1", "held-content-connect"
+		}
+		idx = 1
+	}
+	if in.Concurrent > 0 {
 		want := map[string]int{}
 		for g := 0; g < in.Concurrent; g++ {
 			for k := 0; k < 8; k++ {
-				want[fmt.Sprintf("g%d-%d", g, k)]++
-			}
-		}
-		qx := steps[0].L[1].L
-		if len(qx) != in.Concurrent*8 {
-			return fmt.Sprintf("concurrent senders: %d stanzas sent, %d held", in.Concurrent*8, len(qx)), "concurrent-lost"
-		}
-		for i, e := range qx {
-			if e.L[0].Z != int64(i+1) {
-				return fmt.Sprintf("concurrent senders: entry %d has sequence number %d", i, e.L[0].Z), "concurrent-ids"
-			}
-			s := string(bytesOf(e.L[1]))
-			found := false
-			for k := range want {
-				if strings.Contains(s, "'"+k+"'") || strings.Contains(s, "\""+k+"\"") {
-					want[k]--
-					found = true
-					break
+				if k%2 == 0 {
+					want[c10Canon(fmt.Sprintf("<message id='g%d-%d'/>", g, k))]++
+				} else {
+					data, _ := xml.Marshal(stanza.NewMessage(stanza.Attrs{Id: fmt.Sprintf("g%d-%d", g, k)}))
+					want[c10Canon(string(data))]++
 				}
 			}
-			if !found {
-				return "concurrent senders: unknown entry held: " + s, "concurrent-unknown"
-			}
-			sent = append(sent, s)
 		}
-		for k, v := range want {
-			if v != 0 {
-				return "concurrent senders: stanza " + k + " held " + fmt.Sprint(1-v) + " times", "concurrent-dup"
-			}
+		if idx >= len(steps) {
+			return "no observation", "shape"
 		}
-		idx = 1
+		got, msg, sig := c10Simultaneous(steps[idx], want, len(sent), "concurrent senders")
+		if msg != "" {
+			return msg, sig
+		}
+		sent = append(sent, got...)
+		idx++
+	}
+	if in.Race > 0 {
+		bodyA, bodyB := c10RaceBodies(in.Race)
+		data, _ := xml.Marshal(c10Packet(c10Op{Body: bodyB}))
+		want := map[string]int{c10Canon(bodyA): 1, c10Canon(string(data)): 1}
+		if idx >= len(steps) {
+			return "no observation", "shape"
+		}
+		got, msg, sig := c10Simultaneous(steps[idx], want, len(sent), "two senders, the first stalled by the transport after taking its sequence number")
+		if msg != "" {
+			return msg, sig
+		}
+		sent = append(sent, got...)
+		idx++
 	}
 	if len(in.Stall) > 0 {
 		if len(steps) != idx+len(in.Ops)+1 {
@@ -380,26 +631,50 @@ func (c10) Oracle(inp interface{}, obs Sx) (string, string) {
 			return "missing observation", "shape"
 		}
 		ws, qx := steps[idx+oi].L[0].L, steps[idx+oi].L[1].L
-		var wantWire []string // "" = <r/>
+		var wantWire []string // "\x00R" = <r/>
+		what := o.Op
 		switch o.Op {
 		case "send":
 			data, _ := xml.Marshal(c10Packet(o))
-			if o.Kind == 0 {
+			k := c10SendKind(o)
+			what = fmt.Sprintf("send%d", o.Kind)
+			if o.Fail {
+				what += "-refused"
+				break // nothing on the wire, nothing sent on the session
+			}
+			if k == 0 {
 				sent = append(sent, c10Canon(string(data)))
 			}
-			if o.Kind == 1 {
+			if k == 1 {
 				wantWire = []string{"\x00R"}
 			} else {
 				wantWire = []string{c10Canon(string(data))}
 			}
 		case "raw":
-			sent = append(sent, c10Canon(o.Body))
-			wantWire = []string{c10Canon(o.Body)}
+			k := c10RawKind(o.Body)
+			if k != 0 {
+				what = fmt.Sprintf("raw-sm%d", k)
+			}
+			if o.Fail {
+				what += "-refused"
+				break
+			}
+			if k == 0 {
+				sent = append(sent, c10Canon(o.Body))
+			}
+			if k == 1 {
+				wantWire = []string{"\x00R"}
+			} else {
+				wantWire = []string{c10Canon(o.Body)}
+			}
 		case "peer_r":
 			wantWire = []string{c10Canon(`<a xmlns="urn:xmpp:sm:3" h="0"></a>`)}
 		case "ack":
 			h := o.H
-			if h > len(sent) {
+			if o.Big {
+				what = "ack-big"
+			}
+			if o.Big || h > len(sent) {
 				h = len(sent)
 			}
 			if h > acked {
@@ -412,26 +687,26 @@ func (c10) Oracle(inp interface{}, obs Sx) (string, string) {
 		}
 		// held = sent[acked:], numbered acked+1...
 		if len(qx) != len(sent)-acked {
-			return fmt.Sprintf("op %d (%s h=%d): %d stanzas sent on the session, %d acknowledged, but %d held", oi, o.Op, o.H, len(sent), acked, len(qx)), "held-count-" + o.Op
+			return fmt.Sprintf("op %d (%s h=%d): %d stanzas sent on the session, %d acknowledged, but %d held", oi, what, o.H, len(sent), acked, len(qx)), "held-count-" + what
 		}
 		for i, e := range qx {
 			if string(bytesOf(e.L[1])) != sent[acked+i] {
-				return fmt.Sprintf("op %d (%s): held entry %d is not the stanza sent at absolute position %d", oi, o.Op, i, acked+i+1), "held-content-" + o.Op
+				return fmt.Sprintf("op %d (%s): held entry %d is not the stanza sent at absolute position %d", oi, what, i, acked+i+1), "held-content-" + what
 			}
 			if e.L[0].Z != int64(acked+i+1) {
-				return fmt.Sprintf("op %d (%s): held entry %d carries sequence number %d, absolute position %d", oi, o.Op, i, e.L[0].Z, acked+i+1), "held-number-" + o.Op
+				return fmt.Sprintf("op %d (%s): held entry %d carries sequence number %d, absolute position %d", oi, what, i, e.L[0].Z, acked+i+1), "held-number-" + what
 			}
 		}
 		if len(ws) != len(wantWire) {
-			return fmt.Sprintf("op %d (%s h=%d): %d writes, expected %d", oi, o.Op, o.H, len(ws), len(wantWire)), "wire-count-" + o.Op
+			return fmt.Sprintf("op %d (%s h=%d): %d writes, expected %d", oi, what, o.H, len(ws), len(wantWire)), "wire-count-" + what
 		}
 		for i, w := range ws {
 			if wantWire[i] == "\x00R" {
 				if w.L[0].Z != 1 {
-					return fmt.Sprintf("op %d (%s): write %d should be the ack request", oi, o.Op, i), "wire-req-" + o.Op
+					return fmt.Sprintf("op %d (%s): write %d should be the ack request", oi, what, i), "wire-req-" + what
 				}
 			} else if w.L[0].Z != 0 || string(bytesOf(w.L[1])) != wantWire[i] {
-				return fmt.Sprintf("op %d (%s): write %d is not the expected stanza", oi, o.Op, i), "wire-content-" + o.Op
+				return fmt.Sprintf("op %d (%s): write %d is not the expected stanza", oi, what, i), "wire-content-" + what
 			}
 		}
 	}
@@ -461,29 +736,56 @@ func (c10) Oracle(inp interface{}, obs Sx) (string, string) {
 func (c10) Key(inp interface{}) (string, bool) {
 	in := inp.(c10In)
 	var b strings.Builder
-	fmt.Fprintf(&b, "c%d st%v:", in.Concurrent, in.Stall)
+	fmt.Fprintf(&b, "c%d r%d k%v st%v:", in.Concurrent, in.Race, in.Connect, in.Stall)
 	if len(in.Stall) > 0 {
 		hist("stalled-retransmission")
 	}
+	if in.Connect {
+		hist("session:Connect")
+	}
+	if in.Race > 0 {
+		hist("two-senders-first-stalled")
+	}
 	sent, acked, nt := in.Concurrent*8, 0, false
+	if in.Connect {
+		sent++
+	}
+	if in.Race > 0 {
+		sent += 2
+	}
 	for _, o := range in.Ops {
 		switch o.Op {
 		case "send":
 			b.WriteString("s" + fmt.Sprint(o.Kind))
+			if o.Fail {
+				b.WriteString("!")
+				hist(fmt.Sprintf("op:send%d-refused", o.Kind))
+				break
+			}
 			if o.Kind == 0 {
 				sent++
 			}
 			hist(fmt.Sprintf("op:send%d", o.Kind))
 		case "raw":
-			b.WriteString("w")
-			sent++
-			hist("op:raw")
+			k := c10RawKind(o.Body)
+			b.WriteString("w" + fmt.Sprint(k))
+			if o.Fail {
+				b.WriteString("!")
+				hist(fmt.Sprintf("op:raw%d-refused", k))
+				break
+			}
+			if k == 0 {
+				sent++
+			}
+			hist(fmt.Sprintf("op:raw%d", k))
 		case "peer_r":
 			b.WriteString("p")
 			hist("op:peer_r")
 		case "ack":
 			cls := "<"
 			switch {
+			case o.Big:
+				cls = ">>"
 			case o.H < acked:
 				cls = "stale"
 			case o.H == sent:
@@ -494,7 +796,9 @@ func (c10) Key(inp interface{}) (string, bool) {
 			if sent > acked {
 				nt = true
 			}
-			if o.H > acked {
+			if o.Big {
+				acked = sent
+			} else if o.H > acked {
 				acked = o.H
 				if acked > sent {
 					acked = sent
